@@ -1,6 +1,7 @@
 (* Executable byte-level model of the DNS wire code of smoltcp (src/wire/dns.rs):
    Packet accessors, Packet::parse_name (with compression pointers), parse_name_part,
-   Question::parse/emit, RecordData::parse, Record::parse, Repr::buffer_len/emit.
+   Question::parse/emit, RecordData::parse, Record::parse, Repr::buffer_len/emit (after the
+   fix of D3: emit clears the flags word first; set_opcode masks 0x7800).
 
    Conventions
    * a byte string is a [list Z]; theorems about "all byte strings" carry the hypothesis
@@ -268,13 +269,16 @@ Definition wdns_set_flags (buf : list Z) (val : Z) : outcome (list Z) :=
   do old <- wdns_flags_raw buf;
   wdns_set_field16 buf wdns_f_FLAGS (Z.lor (Z.land old (65535 - wdns_FLAGS_ALL)) val).
 
-(* set_opcode: mask 0x3800, val << 11 *)
+(* set_opcode: mask 0x7800, ((val as u16) << 11) & mask *)
 Definition wdns_set_opcode (buf : list Z) (val : Z) : outcome (list Z) :=
   do old <- wdns_flags_raw buf;
-  wdns_set_field16 buf wdns_f_FLAGS (Z.lor (Z.land old (65535 - 14336)) (Z.shiftl val 11)).
+  wdns_set_field16 buf wdns_f_FLAGS
+    (Z.lor (Z.land old (65535 - 30720)) (Z.land (Z.shiftl val 11) 30720)).
 
 Definition wdns_repr_emit (r : wdns_repr) (buf : list Z) : outcome (list Z) :=
   do b1 <- wdns_set_field16 buf wdns_f_ID (rp_transaction_id r);
+  (* the whole flags word is cleared first (fix of D3): nothing of the old buffer survives *)
+  do b1 <- wdns_set_field16 b1 wdns_f_FLAGS 0;
   do b2 <- wdns_set_flags b1 (rp_flags r);
   do b3 <- wdns_set_opcode b2 (rp_opcode r);
   do b4 <- wdns_set_field16 b3 wdns_f_QDCOUNT 1;
